@@ -50,9 +50,9 @@ CHECKS = {
             "note": "Trusted: TLC + Real.class; grids are finite samples placed on every boundary of the laws.",
             "technique": "TLA+ scalar laws (Laws.tla) + TLC-enumerated grids (Prim.tla, gen) called on both engines + TLC validation of the recorded results (Prim.tla, check)"},
     "C16": dyn("Functions compiled with symbolic parameter subsets (singletons, pairs, full set; per-element and shared symbols; SX and MX; levels 0 and 2) are evaluated at two parameter points; TLC substitutes the values into the specification's network and compares; trailing positions / stacked p per Compile!ParamEntries.", "5/C16"),
-    "C17": dyn("TLC checks the origin-flow bounds and next-queue non-negativity on the q_o / w+ outputs of compiled functions and on the NumPy next queues for every admissible enumerated case, on both engines' origin primitives over full grids, and as exact theorems on the specification.", "5/C17"),
+    "C17": dyn("TLC checks the origin-flow bounds and next-queue non-negativity on the q_o / w+ outputs of compiled functions and on the NumPy next queues for every admissible enumerated case, on both engines' origin primitives over full grids, and as exact theorems on the specification; also on networks reached by a construction detour (elements first attached elsewhere, the half-built network used, then re-attached).", "5/C17"),
     "C18": dyn("Family 'neutral': each case runs against its uncontrolled twin generated by the specification (plain links; swapped ramp variant; unbounded desired flow; infinite limits): equal next states when controls are neutral, next speeds never higher and everything else equal under finite limits; the same relation is an exact theorem on the specification.", "5/C18"),
-    "C19": life("All interleavings of whole-network steps, per-element init/step, init-all, late replacements and compilations up to the depth bound: RuntimeError iff the specification's Ready fails (uninitialised, unstepped or stale next states); returned functions have no free symbols and their values equal StepOpt with the parameters of the most recent step. Replayed with distinct names, shared names and recycled object addresses; a history-complete profile covers state hidden inside engines and elements. Second component (Session.tla, the composition of NetBuild with the lifecycle over ARBITRARY graphs): elements added, replaced and re-attached through the construction API between steps, steps that fail half-way or at the last link, per-element steps; RuntimeError iff the specification's Ready fails on the present graph, functions free of free symbols and numerically equal to the step of the network built.", "5/C19"),
+    "C19": life("All interleavings of whole-network steps, per-element init/step, init-all, late replacements and compilations up to the depth bound: RuntimeError iff the specification's Ready fails (uninitialised, unstepped or stale next states); returned functions have no free symbols and their values equal StepOpt with the parameters of the most recent step. Compiling is an observation: the function at the end of a history that compiled before equals the function of the same history without the earlier compilations. Replayed with distinct names, shared names and recycled object addresses; a history-complete profile covers state hidden inside engines and elements. Second component (Session.tla, the composition of NetBuild with the lifecycle over ARBITRARY graphs): elements added, replaced and re-attached through the construction API between steps, steps that fail half-way or at the last link, per-element steps; RuntimeError iff the specification's Ready fails on the present graph, functions free of free symbols and numerically equal to the step of the network built.", "5/C19"),
 }
 for _p in ("C07", "C19"):
     CHECKS[_p]["technique"] += SESS_TECH
@@ -73,4 +73,4 @@ NOT_APPLICABLE = {}
 NOTES = ("See DESIGN.md. All checks: /venv/bin/python harness/check.py <id> --tier quick|thorough; exit 2 = machinery failure. "
          "TLC outputs that depend only on the specification and the seed are cached under .cache/ (pre-generated by build.sh); "
          "everything touching /repo is re-run on every invocation. harness/selftest.py validates the machinery against a catalogue "
-         "of source mutations (harness/mutants.py) on scratch copies; harness/seedsweep.py re-runs the 73 independently seeded changes of seeded/.")
+         "of source mutations (harness/mutants.py) on scratch copies; harness/seedsweep.py re-runs the 93 independently seeded changes of seeded/.")
